@@ -41,6 +41,7 @@ func init() {
 			"probe_opt_offline", "probe_opt_expired", "probe_opt_offline_local_not_valid", "probe_local_never_valid", "probe_local_outlived_max_age", "probe_stamp_valid_value_held_past_requesters_max_age", "probe_stamp_valid_value_from_the_future", "probe_stamp_valid_value_unparsable",
 			"probe_key_outside_namespaces", "probe_key_outside_record_acceptable_to_unregistered_validator", "probe_key_outside_local_record",
 			"probe_no_starting_points", "probe_no_starting_points_local_valid", "probe_fullrt_crawl_found_nobody", "probe_fullrt_first_crawl_still_running",
+			"probe_ns_configured_in_place_of_shipped_pk", "probe_ns_configured_in_place_of_shipped_ipns", "probe_ns_configured_in_place_of_shipped_local_record", "probe_ns_record_acceptable_to_shipped_validator_only", "probe_ns_local_record_acceptable_to_shipped_validator_only",
 			"probe_slowval_validation_completed", "probe_slowval_completed_while_another_in_progress", "probe_slowval_completed_out_of_delivery_order", "probe_slowval_reply_delivered_during_validation", "probe_slowval_reply_held_back", "probe_slowval_time_passed_during_validation"},
 	})
 }
@@ -77,7 +78,7 @@ func c04BuildFullRT(w *c04World) error {
 	cr := &c04Crawler{s: s, h: w.host}
 	waitFrac := []float64{0.3, 0.6, 1.0}[s.Draw("wait-frac", 3)]
 	perOp := []time.Duration{5 * time.Second, 1500 * time.Millisecond, 40 * time.Second}[s.Draw("per-op", 3)]
-	dopts := append(c04Opts(w.clientValidator(), w.cfg.MaxAge),
+	dopts := append(c04Opts(w.clientValidator(), w.cfg),
 		dht.BucketSize(w.cfg.K),
 		dht.Datastore(d),
 		dht.BootstrapPeers(), // NewFullRT calls the bootstrap-peers function unconditionally
